@@ -572,7 +572,8 @@ func valstr(th *Thread, buf *limitBuf, v Value, inProgress vstack) {
 func Unquoted(k Value) string {
 	if s, ok := k.ToStr(); ok {
 		// want true/false to be quoted to avoid ambiguity
-		if (s != "true" && s != "false") && lexer.IsIdentifier(s) {
+		// and "_" because the lexer reads a lone _ as the identifier "unused"
+		if (s != "true" && s != "false" && s != "_") && lexer.IsIdentifier(s) {
 			return s
 		}
 	}
